@@ -16,6 +16,7 @@ mod proxy;
 mod refpeer;
 mod scen_c08;
 mod scen_c10;
+mod scen_c12;
 mod scen_c14;
 mod scen_c15;
 mod scen_c16;
@@ -43,6 +44,7 @@ fn generate(prop: &str, seed: u64, thorough: bool) -> Option<Plan> {
         "C10" => Some(scen_c10::gen_c10(seed, thorough)),
         "C11model" => Some(scen_pw::gen_c11_model(seed, thorough)),
         "C11" => Some(scen_udp::gen_c11_system(seed, thorough)),
+        "C12" => Some(scen_c12::gen_c12(seed, thorough)),
         "C13" => Some(scen_local::gen_c13(seed, thorough)),
         "C14" => Some(scen_c14::gen_c14(seed, thorough)),
         "C15" => Some(scen_c15::gen_c15(seed, thorough)),
@@ -65,6 +67,7 @@ fn execute(plan: &Plan) -> Outcome {
         "addresses" => scen_c14::execute_c14(plan),
         "interop" => scen_ref::execute_c03(plan),
         "freshness" => scen_c10::execute_c10(plan),
+        "nonces" => scen_c12::execute_c12(plan),
         other => {
             eprintln!("unknown scenario {other}");
             std::process::exit(2);
